@@ -63,6 +63,7 @@ class _SolverBase(Contract):
     prop = 'C07'
     n = 2
     max_paths = 60
+    feas_timeout = 0.8     # branch-feasibility queries over uninterpreted functions time out anyway: unknown keeps the path
     shape_bound = 'chains of 2 joints (the invariant itself is independent of the chain length)'
 
     def inputs(self, g):
